@@ -239,6 +239,12 @@ class Gen:
             if nd >= 4:
                 return None
             ax = rng.randint(0, nd)
+            if nd <= 2 and rng.random() < 0.3:
+                # several new axes at once, in ANY order and with negative positions (positions refer to the RESULT)
+                k = rng.choice([2, 2, 3])
+                ax = tuple(rng.sample(range(nd + k), k))
+                if rng.random() < 0.4:
+                    ax = tuple(a - (nd + k) if rng.random() < 0.5 else a for a in ax)
             return ("expand", p, ax), np.expand_dims(v, ax)
         if op == "squeeze":
             ones = [i for i, n in enumerate(v.shape) if n == 1]
